@@ -96,6 +96,10 @@ def gen_args(fn, stratum, rng):
             else:
                 re = float(rng.choice([709.0 + rng.uniform(0, 1.4), 710.47586007394386 + rng.uniform(0, 30), -745 + rng.uniform(0, 40), rng.uniform(-1e-300, 1e-300)]))
                 im = float(rng.choice([rng.uniform(-4, 4), math.pi * rng.integers(-5, 5) / 2, 0.0, -0.0, 1e-310]))
+                if rng.random() < 0.5:
+                    # |exp(z)| overflows but one component may still be representable: the scaled branch (Re z up to 1454.9) must deliver it
+                    re = float(rng.choice([709.782712893384 + rng.uniform(0, 0.7), 710.47586007394386 + rng.uniform(0, 50), rng.uniform(760, 1454.9)]))
+                    im = float(rng.choice([-1, 1]) * 10 ** rng.uniform(-300, 0.6))
             out.append(complex(re, im))
         return out
     if fn == 'cpow':
@@ -231,6 +235,27 @@ def eval_case(c):
             if ref is None:
                 continue
             mag = abs(ref)
+            if fn == 'cexp' and not (mag <= mp.mpf(DBL_MAX)) and mp.isfinite(mag):
+                # the modulus overflows: judge the two components separately (a representable component must be delivered, an overflowing one is +-inf)
+                g = complex(call(fn, a))
+                compared += 1
+                cnt['mp_comparisons'] += 1
+                for nm, gc, rc in (('real', g.real, ref.real), ('imag', g.imag, ref.imag)):
+                    arc = abs(rc)
+                    if arc > mp.mpf(DBL_MAX):
+                        if not (math.isinf(gc) and (gc > 0) == (rc > 0)):
+                            V('cexp-overflowing-component-not-inf', f'cexp({a!r}).{nm} = {gc!r} but the exact component {mp.nstr(rc, 8)} overflows', arg=repr(a))
+                    elif arc >= mp.mpf(2.3e-308):
+                        if not math.isfinite(gc):
+                            gap = 709.782712893384 <= a.real < 710.47586007394386
+                            V('cexp-overflow-gap-below-scaled-branch' if gap else 'cexp-representable-component-nonfinite',
+                              f'cexp({a!r}).{nm} = {gc!r} but the exact component {float(rc)!r} is representable', arg=repr(a))
+                        else:
+                            err = float(abs(mp.mpf(gc) - rc) / mp.mpf(math.ulp(float(rc))))
+                            worst = max(worst, err)
+                            if err > K:
+                                V('cexp-accuracy', f'cexp({a!r}).{nm} = {gc!r}; exact {float(rc)!r}; error {err:.3g} ulp > budget {K:.3g} (component-wise, modulus overflows)', arg=repr(a), err_ulp=err)
+                continue
             if not (mag <= mp.mpf(DBL_MAX)) or mag < mp.mpf(5e-324):
                 continue      # exact result not representable
             # components individually representable? (a component may legitimately underflow)
